@@ -146,7 +146,14 @@ impl<R: Read, W: Write, M: Matcher> FrameCompressor<R, W, M> {
             single_segment: false,
             content_checksum: cfg!(feature = "hash"),
             dictionary_id: None,
-            window_size: Some(self.state.matcher.window_size()),
+            // Blocks can be as large as the spaces handed out by the matcher (up to MAX_BLOCK_SIZE)
+            // and the format does not allow a block to be bigger than the window
+            window_size: Some(
+                self.state
+                    .matcher
+                    .window_size()
+                    .max(crate::common::MAX_BLOCK_SIZE as u64),
+            ),
         };
         header.serialize(output);
         // Now compress block by block
